@@ -34,10 +34,16 @@
 #include <memory>
 
 #include "layout.hh"
+#ifdef DWGREP_VERIF
+# include "verif-hooks.hh"
+#endif
 
 class scon
 {
   std::vector <uint8_t> m_buf;
+#ifdef DWGREP_VERIF
+  dwgrep_verif::scon_shadow m_verif_shadow;
+#endif
 
   void *
   mem (layout::loc loc)
@@ -52,6 +58,9 @@ public:
   State &
   get (layout::loc loc)
   {
+#ifdef DWGREP_VERIF
+    m_verif_shadow.on_get (loc.m_loc, typeid (State));
+#endif
     return *reinterpret_cast <State *> (this->mem (loc));
   }
 
@@ -59,14 +68,27 @@ public:
   void
   con (layout::loc loc, Args const&... args)
   {
+#ifdef DWGREP_VERIF
+    m_verif_shadow.check_free (loc.m_loc, sizeof (State), typeid (State));
+#endif
     new (this->mem (loc)) State {args...};
+#ifdef DWGREP_VERIF
+    m_verif_shadow.on_con (loc.m_loc, sizeof (State), typeid (State),
+			   std::is_trivially_destructible <State>::value);
+#endif
   }
 
   template <class State>
   void
   des (layout::loc loc)
   {
+#ifdef DWGREP_VERIF
+    m_verif_shadow.des_begin (loc.m_loc, typeid (State));
+#endif
     this->get <State> (loc).~State ();
+#ifdef DWGREP_VERIF
+    m_verif_shadow.des_end (loc.m_loc);
+#endif
   }
 
   template <class State, class... Args>
